@@ -264,10 +264,192 @@ def post_C13(cases, impl):
             if f == "protected-prefix" and not o.startswith("err:"): probs.append((c, o, "truncated header inside a protected bstr accepted"))
     return probs
 
+
+# ================================================================= C03 / C04 / C05
+LEN_CLASSES_Q = [0, 1, 23, 24, 255, 256]
+LEN_CLASSES_T = [0, 1, 23, 24, 255, 256, 65535, 65536]
+
+def gen_prot_desc(rng):
+    """(description, exact bytes it must contribute)"""
+    r = rng.random()
+    if r < 0.45:
+        pb = gen_protected_bytes(rng, 1)
+        # decoded from the wire: whatever the encoding, the stored bytes are used
+        return d_protected(pb, D_EMPTY_HEADER), pb
+    if r < 0.6:
+        return d_protected(None, D_EMPTY_HEADER), b""
+    h = gen_desc_header(rng, 1)
+    d = d_protected(None, h)
+    return d, pyspec.protected_bytes(d)
+
+def blob(rng, lens):
+    return rbytes(rng, rng.choice(lens))
+
+def cases_C03(rng, tier):
+    out = []
+    lens = Q(tier, LEN_CLASSES_Q, LEN_CLASSES_T)
+    seen = {}
+    for _ in range(Q(tier, 500, 5000)):
+        ctx = rng.choice(list(pyspec.SIG_CTX))
+        body, bb = gen_prot_desc(rng)
+        sign, sb = (gen_prot_desc(rng) if rng.random() < 0.5 else (NULL, None))
+        aad, pl = blob(rng, lens), blob(rng, lens)
+        want = pyspec.sig_structure(ctx, bb, sb, aad, pl)
+        out.append(case("sigdata", ctx, enc(body), enc(sign), aad, pl, fam="sig_structure_data",
+                        expect="ok " + want.hex(), tuple=(ctx, bb, sb, aad, pl)))
+    for _ in range(Q(tier, 300, 3000)):
+        # through the message helpers, message given in memory
+        body, bb = gen_prot_desc(rng)
+        aad = blob(rng, lens)
+        embedded = rng.random() < 0.6
+        pl = blob(rng, lens)
+        sig = rbytes(rng)
+        if rng.random() < 0.5:
+            m = A(body, gen_desc_header(rng, 0), B(pl) if embedded else NULL, B(sig))
+            if embedded:
+                want = pyspec.sig_structure("CoseSign1", bb, None, aad, pl)
+                out.append(case("helperdesc", "sign1.tbs_data", enc(m), aad, fam="sign1.tbs_data", expect="ok " + want.hex()))
+                out.append(case("helperdesc", "sign1.verify_signature", enc(m), aad, fam="sign1.verify",
+                                expect="ok %s %s" % (sig.hex(), want.hex())))
+                out.append(case("helperdesc", "sign1.tbs_detached_data", enc(m), pl, aad, fam="sign1.detached-on-embedded",
+                                expect="panic", may_panic=True))
+            else:
+                want = pyspec.sig_structure("CoseSign1", bb, None, aad, pl)
+                out.append(case("helperdesc", "sign1.tbs_detached_data", enc(m), pl, aad, fam="sign1.tbs_detached", expect="ok " + want.hex()))
+                out.append(case("helperdesc", "sign1.verify_detached_signature", enc(m), pl, aad, fam="sign1.verify_detached",
+                                expect="ok %s %s" % (sig.hex(), want.hex())))
+                want0 = pyspec.sig_structure("CoseSign1", bb, None, aad, b"")
+                out.append(case("helperdesc", "sign1.tbs_data", enc(m), aad, fam="sign1.tbs_data-nopayload", expect="ok " + want0.hex()))
+        else:
+            nsig = rng.choice([1, 2, 3])
+            sigs = []; sbytes = []
+            for _i in range(nsig):
+                sp, spb = gen_prot_desc(rng)
+                sg = rbytes(rng)
+                sigs.append(d_signature(sp, gen_desc_header(rng, 0), sg)); sbytes.append((spb, sg))
+            m = A(body, gen_desc_header(rng, 0), B(pl) if embedded else NULL, ('a', sigs))
+            w = rng.randrange(nsig)
+            want = pyspec.sig_structure("CoseSignature", bb, sbytes[w][0], aad, pl)
+            if embedded:
+                out.append(case("helperdesc", "sign.tbs_data", enc(m), aad, bytes([w]), fam="sign.tbs_data", expect="ok " + want.hex()))
+                out.append(case("helperdesc", "sign.verify_signature", enc(m), bytes([w]), aad, fam="sign.verify",
+                                expect="ok %s %s" % (sbytes[w][1].hex(), want.hex())))
+            else:
+                out.append(case("helperdesc", "sign.tbs_detached_data", enc(m), pl, aad, bytes([w]), fam="sign.tbs_detached", expect="ok " + want.hex()))
+                out.append(case("helperdesc", "sign.verify_detached_signature", enc(m), bytes([w]), pl, aad, fam="sign.verify_detached",
+                                expect="ok %s %s" % (sbytes[w][1].hex(), want.hex())))
+            out.append(case("helperdesc", "sign.verify_signature", enc(m), bytes([nsig]), aad, fam="sign.index-out-of-range",
+                            expect="panic", may_panic=True))
+    return out
+
+def post_injective(cases, impl):
+    probs = []; seen = {}
+    for c, o in zip(cases, impl):
+        if "tuple" in c and o.startswith("ok "):
+            t = c["tuple"]
+            if o in seen and seen[o] != t:
+                probs.append((c, o, "two different inputs share these bytes: %r" % (seen[o],)))
+            seen[o] = t
+    return probs
+
+def cases_C04(rng, tier):
+    out = []
+    lens = Q(tier, LEN_CLASSES_Q, LEN_CLASSES_T)
+    for _ in range(Q(tier, 400, 4000)):
+        ctx = rng.choice(list(pyspec.MAC_CTX))
+        p, pb = gen_prot_desc(rng)
+        aad, pl = blob(rng, lens), blob(rng, lens)
+        want = pyspec.mac_structure(ctx, pb, aad, pl)
+        out.append(case("macdata", ctx, enc(p), aad, pl, fam="mac_structure_data", expect="ok " + want.hex(), tuple=(ctx, pb, aad, pl)))
+    for _ in range(Q(tier, 300, 3000)):
+        p, pb = gen_prot_desc(rng)
+        aad, pl, tag = blob(rng, lens), blob(rng, lens), rbytes(rng)
+        has = rng.random() < 0.75
+        if rng.random() < 0.5:
+            m = A(p, gen_desc_header(rng, 0), B(pl) if has else NULL, B(tag))
+            fn, ctx = "mac0.verify_tag", "CoseMac0"
+        else:
+            m = A(p, gen_desc_header(rng, 0), B(pl) if has else NULL, B(tag), ('a', [gen_desc_recipient(rng, 0) for _ in range(rng.choice([0, 1]))]))
+            fn, ctx = "mac.verify_tag", "CoseMac"
+        if has:
+            want = pyspec.mac_structure(ctx, pb, aad, pl)
+            out.append(case("helperdesc", fn, enc(m), aad, fam=fn, expect="ok %s %s" % (tag.hex(), want.hex())))
+        else:
+            out.append(case("helperdesc", fn, enc(m), aad, fam=fn + "-nopayload", expect="panic", may_panic=True))
+    for _ in range(Q(tier, 150, 1500)):
+        # creation through the builders: the closure echoes what it was given
+        p_hdr = gen_desc_header(rng, 0)
+        pb = b"" if pyspec.header_empty(p_hdr) else enc(pyspec.header_map(p_hdr))
+        aad, pl, k = blob(rng, lens), blob(rng, lens), rbytes(rng, 2)
+        bt, ctx = rng.choice([("CoseMac0", "CoseMac0"), ("CoseMac", "CoseMac")])
+        has = rng.random() < 0.8
+        ops = [A(T("protected"), p_hdr)] + ([A(T("payload"), B(pl))] if has else []) + \
+              [A(T(rng.choice(["create_tag", "try_create_tag"])), B(aad), A(I(0), B(k)))]
+        if has:
+            want = k + pyspec.mac_structure(ctx, pb, aad, pl)
+            out.append(case("build", bt, enc(('a', ops)), fam="create_tag", check=lambda c, o, w=want: None if ("h" + w.hex()) in o else "tag created from other bytes than the MAC_structure"))
+        else:
+            out.append(case("build", bt, enc(('a', ops)), fam="create_tag-nopayload", expect="panic", may_panic=True))
+    return out
+
+def cases_C05(rng, tier):
+    out = []
+    lens = Q(tier, LEN_CLASSES_Q, LEN_CLASSES_T)
+    for _ in range(Q(tier, 400, 4000)):
+        ctx = rng.choice(list(pyspec.ENC_CTX))
+        p, pb = gen_prot_desc(rng)
+        aad = blob(rng, lens)
+        want = pyspec.enc_structure(ctx, pb, aad)
+        out.append(case("encdata", ctx, enc(p), aad, fam="enc_structure_data", expect="ok " + want.hex(), tuple=(ctx, pb, aad)))
+    for _ in range(Q(tier, 300, 3000)):
+        p, pb = gen_prot_desc(rng)
+        aad, ct = blob(rng, lens), rbytes(rng)
+        has = rng.random() < 0.75
+        which = rng.choice(["encrypt", "encrypt0", "recipient"])
+        if which == "encrypt":
+            m = A(p, gen_desc_header(rng, 0), B(ct) if has else NULL, ('a', []))
+            args, ctx = (aad,), "CoseEncrypt"
+        elif which == "encrypt0":
+            m = A(p, gen_desc_header(rng, 0), B(ct) if has else NULL)
+            args, ctx = (aad,), "CoseEncrypt0"
+        else:
+            m = A(p, gen_desc_header(rng, 0), B(ct) if has else NULL, ('a', []))
+            ctx = rng.choice(list(pyspec.ENC_CTX))
+            args = (tstr(ctx), aad)
+        fn = which + ".decrypt"
+        bad_ctx = which == "recipient" and ctx in ("CoseEncrypt", "CoseEncrypt0")
+        if has and not bad_ctx:
+            want = pyspec.enc_structure(ctx, pb, aad)
+            out.append(case("helperdesc", fn, enc(m), *args, fam=fn, expect="ok %s %s" % (ct.hex(), want.hex())))
+        else:
+            out.append(case("helperdesc", fn, enc(m), *args, fam=fn + "-refused", expect="panic", may_panic=True))
+    for _ in range(Q(tier, 150, 1500)):
+        p_hdr = gen_desc_header(rng, 0)
+        pb = b"" if pyspec.header_empty(p_hdr) else enc(pyspec.header_map(p_hdr))
+        aad, pt, k = blob(rng, lens), rbytes(rng), rbytes(rng, 2)
+        bt = rng.choice(["CoseEncrypt", "CoseEncrypt0", "CoseRecipient"])
+        name = rng.choice(["create_ciphertext", "try_create_ciphertext"])
+        if bt == "CoseRecipient":
+            ctx = rng.choice(list(pyspec.ENC_CTX))
+            ops = [A(T("protected"), p_hdr), A(T(name), T(ctx), B(pt), B(aad), A(I(0), B(k)))]
+        else:
+            ctx = bt
+            ops = [A(T("protected"), p_hdr), A(T(name), B(pt), B(aad), A(I(0), B(k)))]
+        if bt == "CoseRecipient" and ctx in ("CoseEncrypt", "CoseEncrypt0"):
+            out.append(case("build", bt, enc(('a', ops)), fam="create_ciphertext-refused", expect="panic", may_panic=True))
+        else:
+            want = k + bytes([len(pt) % 256]) + pt + pyspec.enc_structure(ctx, pb, aad)
+            out.append(case("build", bt, enc(('a', ops)), fam="create_ciphertext",
+                            check=lambda c, o, w=want: None if ("h" + w.hex()) in o else "ciphertext created with other additional data than the Enc_structure"))
+    return out
+
 # ================================================================= registry
 PROPS = {}
 def reg(pid, gen, **kw):
     d = {"gen": gen}; d.update(kw); PROPS[pid] = d
+reg("C03", cases_C03, post=post_injective)
+reg("C04", cases_C04, post=post_injective)
+reg("C05", cases_C05, post=post_injective)
 reg("C13", cases_C13, post=post_C13)
 reg("C14", cases_C14, post=post_C14)
 reg("C15", cases_C15)
